@@ -1251,7 +1251,13 @@ func (db *DB) acquireReadLock(ctx context.Context) error {
 		return nil
 	}
 
-	// Start long running read-transaction to prevent checkpoints.
+	// Start long running read-transaction to prevent checkpoints. It must
+	// outlive the call that starts it: database/sql rolls a transaction back
+	// as soon as the context it was begun with is cancelled, and callers pass
+	// request-scoped contexts (a /sync request, a CLI command with a timeout)
+	// that are cancelled right after they return. The read lock would then
+	// silently be gone until the next checkpoint.
+	ctx = context.WithoutCancel(ctx)
 	tx, err := db.db.BeginTx(ctx, nil)
 	if err != nil {
 		return err
